@@ -75,6 +75,7 @@ var (
 	tImp  = mars.WarriorCode{Code: []mars.Insn{{Op: mars.MOV, Mod: mars.MI, AM: mars.DIR, BM: mars.DIR, A: 0, B: 1}}}
 	tDat  = mars.WarriorCode{Code: []mars.Insn{{Op: mars.DAT, Mod: mars.MF, AM: mars.IMM, BM: mars.IMM}}}
 	tLoop = mars.WarriorCode{Code: []mars.Insn{{Op: mars.DAT, Mod: mars.MF, AM: mars.IMM, BM: mars.IMM}, {Op: mars.SPL, Mod: mars.MB, AM: mars.DIR, BM: mars.DIR, A: 0, B: 0}}, Start: 1}
+	tEmpty = mars.WarriorCode{} // no code at all: spawning it only queues a task at the offset
 )
 
 // apiRunner drives a real simulator and the reference model with the same calls.
@@ -282,7 +283,7 @@ func runHistory(c *Ctx, h *apiHistory) bool {
 // symbols of the exhaustive alphabet; spawn indexes are relative: -1..count+1
 func exhaustiveAlphabet(m int) []apiCall {
 	var a []apiCall
-	for t := 0; t < 3; t++ {
+	for t := 0; t < 4; t++ {
 		a = append(a, apiCall{Kind: "add", W: t})
 	}
 	for i := -1; i <= 4; i++ {
@@ -342,7 +343,7 @@ func (c *Ctx) runC13Case(idx int64, depth int, nRandom int64) {
 			pow *= na
 			l++
 		}
-		h := &apiHistory{M: 5, P: 2, C: 3, templates: []mars.WarriorCode{tImp, tDat, tLoop}}
+		h := &apiHistory{M: 5, P: 2, C: 3, templates: []mars.WarriorCode{tImp, tDat, tLoop, tEmpty}}
 		count := 0
 		valid := true
 		for k := 0; k < l; k++ {
@@ -372,7 +373,7 @@ func (c *Ctx) runC13Case(idx int64, depth int, nRandom int64) {
 	r := NewRng(hashStr("C13"), uint64(c.Seed), uint64(idx))
 	m := r.Range(5, 8)
 	h := &apiHistory{M: m, P: r.Range(1, 3), C: []int{1, 2, 3, 5, 40}[r.Intn(5)]}
-	h.templates = []mars.WarriorCode{tImp, tDat, tLoop}
+	h.templates = []mars.WarriorCode{tImp, tDat, tLoop, tEmpty}
 	for k := 0; k < 2; k++ {
 		l := r.Range(1, 4)
 		if r.Chance(1, 8) {
